@@ -68,6 +68,7 @@ type Ctx struct {
 	NotDecided  string
 	Assumptions []string
 	Extra       map[string]any
+	RoleNames   map[string]string
 	start       time.Time
 }
 
